@@ -425,8 +425,8 @@ impl Prop for ProgProp {
     }
     fn cases(&self, tier: Tier) -> u32 {
         match (self.kind, tier) {
-            (_, Tier::Quick) => 6_000,
-            (_, Tier::Thorough) => 300_000,
+            (_, Tier::Quick) => 40_000,
+            (_, Tier::Thorough) => 1_500_000,
         }
     }
     fn shape(&self, _tier: Tier) -> CaseShape {
